@@ -451,6 +451,7 @@ EmitToks == Complete => PrintT("GEN " \o ToJson([t |-> Enc(toks), o |-> <<>>]))
 KCode(k) == CASE k = "S" -> 1 [] k = "E" -> 2 [] k = "T" -> 3 [] OTHER -> 5
 Checksum == FoldLeft(LAMBDA a, i : (a * 3 + i * (KCode(toks[i].k) + Len(toks[i].x) + (IF toks[i].h THEN 7 ELSE 0))) % 1009,
                      0, [i \in 1..Len(toks) |-> i])
+EmitQuarter == Complete /\ Checksum % 4 = 0 => Emit          \* one quarter, with the design's predictions
 EmitSample == Complete /\ Checksum % 8 = 0 => PrintT("GEN " \o ToJson([t |-> Enc(toks), o |-> <<>>]))
 
 AllOpts == [ket : BOOLEAN, kws : BOOLEAN, kdoc : BOOLEAN]
@@ -470,6 +471,6 @@ VocabQuick == {"div", "p", "ul", "li", "span", "a", "img", "select", "option", "
 VocabTable == {"table", "tbody", "tr", "td", "colgroup", "col", "script", "template", "span", "p"}
 VocabList == {"ul", "li", "dl", "dt", "dd", "p", "div", "script", "span", "a"}
 VocabSelect == {"select", "optgroup", "option", "script", "template", "span", "p", "pre"}
-VocabInline == {"span", "a", "b", "img", "button", "textarea", "br", "p", "div", "my-el", "pre"}
+VocabInline == {"span", "a", "img", "button", "textarea", "br", "p", "my-el"}
 VocabDoc == {"html", "head", "body", "title", "meta", "style", "script", "div", "p", "span", "ul", "li", "a", "img"}
 =============================================================================
